@@ -12,7 +12,7 @@
 EXTENDS SebufSchema
 
 CONSTANT Dev
-CONSTANT Enforce        \* which property groups guard Run: subset of {"C12", "C14", "C15", "C16"}
+CONSTANT Enforce        \* which property groups guard the actions: subset of {"C12", "C13", "C14", "C15", "C16"}
 
 VARIABLES schema,     \* the abstract schema of the current segment
           domain,     \* TRUE when the schema is documented-valid usage (C12's accept direction applies)
@@ -20,10 +20,59 @@ VARIABLES schema,     \* the abstract schema of the current segment
           stripped,   \* function file -> set of <<plugin, header-stripped identity>>
           runs,       \* number of runs so far in this segment
           codecBase,  \* function plugin -> set of codec file names it emitted for the whole request ("base" variant)
-          outNames    \* function <<plugin, input file>> -> the set of file names emitted for that input file
-pvars == <<schema, domain, seen, stripped, runs, codecBase, outNames>>
+          outNames,   \* function <<plugin, input file>> -> the set of file names emitted for that input file
+          accepted    \* plugins that returned files for the whole request
+pvars == <<schema, domain, seen, stripped, runs, codecBase, outNames, accepted>>
 
 Plugins == {"go-http", "go-client", "ts-client", "ts-server", "openapiv3"}
+
+\* table of build-level deviations (known findings, see known_findings.json): the failure kind
+\* and the class of the first diagnostic each one prescribes; the guards are in DevGuard below
+DevBuild == {[dev |-> "D_codec_bytes_repeated", kind |-> "build", diag |-> "type_mismatch"],
+             [dev |-> "D_codec_int64_optional", kind |-> "build", diag |-> "type_mismatch"],
+             [dev |-> "D_codec_ts_repeated", kind |-> "build", diag |-> "undefined"],
+             [dev |-> "D_client_query_zero_check", kind |-> "build", diag |-> "type_mismatch"],
+             [dev |-> "D_unwrap_unused_import", kind |-> "build", diag |-> "unused"],
+             [dev |-> "D_ts_dup_url", kind |-> "load", diag |-> "redeclared"],
+             [dev |-> "D_client_helper_dup", kind |-> "build", diag |-> "redeclared"],
+             [dev |-> "D_server_helper_dup", kind |-> "build", diag |-> "redeclared"],
+             [dev |-> "D_vet_oneof_errorf", kind |-> "vet", diag |-> "other"]}
+
+AnyField(s, P(_)) == \E m \in GenMsgs(s) : \E f \in Range(m.fields) : P(f)
+GenServices(s) == UNION {Range(f.services) : f \in GenFiles(s)}
+HeaderNames(sv) == [i \in 1..Len(sv.headers) |-> sv.headers[i].name]
+DevGuard(d, s, subset) ==
+  CASE d = "D_codec_bytes_repeated" -> LET P(f) == f.ann.bytes # "" /\ f.card = "rep" IN AnyField(s, P)
+    [] d = "D_codec_int64_optional" -> LET P(f) == f.ann.int64 = "NUMBER" /\ f.card = "opt" IN AnyField(s, P)
+    [] d = "D_codec_ts_repeated"    -> LET P(f) == f.ann.ts # "" /\ f.card = "rep" IN AnyField(s, P)
+    [] d = "D_client_query_zero_check" ->
+         /\ "go-client" \in subset
+         /\ \E sv \in GenServices(s) : \E me \in Range(sv.methods) :
+               /\ me.verb \in {"GET", "DELETE"} /\ HasMsg(s, me.in)
+               /\ \E f \in Range(MsgByName(s, me.in).fields) : f.ann.query /\ (f.card \in {"opt", "rep"} \/ f.kind = "enum")
+    [] d = "D_unwrap_unused_import" ->
+         /\ "go-http" \in subset
+         /\ LET P(f) == f.ann.unwrap /\ f.kind # "message" IN AnyField(s, P)
+    [] d = "D_ts_dup_url" ->
+         /\ subset = {"ts-server"}
+         /\ \E sv \in GenServices(s) : \E me \in Range(sv.methods) :
+               /\ me.hasCfg /\ me.verb \in {"GET", "DELETE"} /\ PathVars(me) # {} /\ HasMsg(s, me.in)
+               /\ \E f \in Range(MsgByName(s, me.in).fields) : f.ann.query
+    [] d = "D_client_helper_dup" ->
+         /\ "go-client" \in subset
+         /\ \E sv \in GenServices(s) :
+               LET decls == {<<0, i>> : i \in 1..Len(sv.headers)}
+                            \cup {<<j, i>> : j \in 1..Len(sv.methods), i \in 1..10}
+                   name(x) == IF x[1] = 0 THEN sv.headers[x[2]].name
+                              ELSE IF x[2] <= Len(sv.methods[x[1]].headers) THEN sv.methods[x[1]].headers[x[2]].name ELSE ""
+               IN \E a, b \in decls : a # b /\ name(a) # "" /\ name(a) = name(b)
+    [] d = "D_server_helper_dup" ->
+         /\ "go-http" \in subset
+         /\ \E f \in GenFiles(s) : \E i, j \in 1..Len(f.services) :
+               i # j /\ \E a \in Range(f.services[i].methods), b \in Range(f.services[j].methods) : a.name = b.name
+    [] d = "D_vet_oneof_errorf" -> \E m \in GenMsgs(s) : \E o \in Range(m.oneofs) : o.hasCfg
+    [] OTHER -> FALSE
+
 GoPlugins == {"go-http", "go-client"}
 CodecKinds == {"codec:unwrap", "codec:int64", "codec:enum", "codec:nullable", "codec:empty", "codec:timestamp",
                "codec:bytes", "codec:flatten", "codec:oneof"}
@@ -71,7 +120,7 @@ ClientAloneEquivalent(p, variant, o) ==
      \A q \in GoPlugins \ {p} : q \in DOMAIN codecBase => codecBase[q] = CodecNames(o)
 
 Load(s, dom) == /\ schema' = s /\ domain' = dom
-                /\ seen' = <<>> /\ stripped' = <<>> /\ runs' = 0 /\ codecBase' = <<>> /\ outNames' = <<>>
+                /\ seen' = <<>> /\ stripped' = <<>> /\ runs' = 0 /\ codecBase' = <<>> /\ outNames' = <<>> /\ accepted' = {}
 
 Run(p, variant, o) ==
   /\ "C16" \in Enforce => Answered(o)
@@ -91,7 +140,33 @@ Run(p, variant, o) ==
                     (IF n \in DOMAIN stripped THEN stripped[n] ELSE {})
                     \cup {<<p, f.stripped>> : f \in {g \in o.files : g.name = n}}]
   /\ runs' = runs + 1
+  /\ accepted' = IF variant = "base" /\ o.exit = "files" THEN accepted \cup {p} ELSE accepted
   /\ UNCHANGED <<schema, domain>>
+
+(***************************************************************************)
+(* C13: what the plugins accept builds.  subset = the set of plugins whose *)
+(* output (plus the standard protobuf Go output) forms the package.        *)
+(* Deviations (known findings) are guarded by a predicate over the schema  *)
+(* and prescribe the class of the first diagnostic.                        *)
+(***************************************************************************)
+CodecFeaturesOf(m) ==
+  {x \in {"int64", "nullable", "empty", "ts", "bytes"} :
+     \E f \in Range(m.fields) :
+        CASE x = "int64" -> f.ann.int64 = "NUMBER" [] x = "nullable" -> f.ann.nullable [] x = "empty" -> f.ann.empty # ""
+          [] x = "ts" -> f.ann.ts # "" [] x = "bytes" -> f.ann.bytes # ""}
+MultiFeatureMsg(s) == \E m \in GenMsgs(s) : Cardinality(CodecFeaturesOf(m)) >= 2
+
+\* a build / vet / load failure is tolerated only under a listed deviation whose guard holds and
+\* whose diagnostic class matches
+Tolerated(kind, subset, diag) ==
+  \/ "D_dup_marshaljson" \in Dev /\ kind = "build" /\ MultiFeatureMsg(schema) /\ diag = "redeclared"
+  \/ \E d \in DevBuild : d.dev \in Dev /\ d.kind = kind /\ d.diag = diag /\ DevGuard(d.dev, schema, subset)
+
+NoDupDecls(subset, dups) ==
+  "C13" \in Enforce => (subset \subseteq accepted => (dups = {} \/ \A d \in dups : Tolerated("build", subset, "redeclared")))
+Builds(kind, subset, ok, diag) ==
+  "C13" \in Enforce => (subset \subseteq accepted => (ok \/ Tolerated(kind, subset, diag)))
+Instrument == UNCHANGED pvars
 
 (***************************************************************************)
 (* Invariants in the terms of the statements.                              *)
